@@ -10,6 +10,8 @@ that carries the operation out:
    13 m n         vector                                     14 m h x      push (grows through the stored reserve function)
    15 m h         sum through &CVec                          16 m h        sum through a CSliceRef handed to m          17 m h   destroy
    19 m h i x     insert      20 m h   pop      21 m h i   remove      22 m h n   reserve      23 m h   clone the vector (the copy belongs to m)
+   24 m           TYPED CArc<Token> (not erased)             25 m h        clone it      26 m h   erase it (into_opaque; the result is a context)
+   27 m v         typed CBox<u64>                            28 m h        read it
 After the script everything left is destroyed, alternating the destroying module.
 harness/xmod is ONE source compiled twice: into the host binary (module 0) and as a cdylib (module 1) loaded with dlopen — by another compiler
 version / optimisation level / repr(Rust) layout seed; each artifact has its own std, its own tagging global allocator (a block freed by the module
@@ -141,7 +143,7 @@ def gen_cases(rng, tier):
         for _ in range(4 + r.below(37)):
             m = r.below(2)
             live = lambda k: [j for j, x in enumerate(kinds) if x == k]
-            choice = r.below(21) if r.chance(1, 2) else 17 + r.below(2) if r.chance(1, 6) else r.below(21)
+            choice = r.below(24) if r.chance(1, 2) else 17 + r.below(2) if r.chance(1, 6) else r.below(24)
             pick = lambda k: (r.choice(live(k)) if live(k) and not (wild and r.chance(1, 4)) else r.below(len(kinds) + 2) - 1)
             if choice == 0 or not live("c"):
                 ops.append([0, m]); kinds.append("c"); home[len(kinds) - 1] = m
@@ -199,12 +201,29 @@ def gen_cases(rng, tier):
                         kinds.append("v"); home[len(kinds) - 1] = m
             elif choice == 18:
                 ops.append([r.choice([15, 16]), m, pick("v")])
+            elif choice == 21:     # typed (not erased) reference-counted handles: make / clone / erase (the erased one is then used as a context)
+                k = r.below(3)
+                if k == 0 or not live("t"):
+                    ops.append([24, m]); kinds.append("t"); home[len(kinds) - 1] = m
+                elif k == 1:
+                    h = pick("t"); ops.append([25, m, h])
+                    if 0 <= h < len(kinds) and kinds[h] == "t":
+                        kinds.append("t"); home[len(kinds) - 1] = home[h]
+                else:
+                    h = pick("t"); ops.append([26, m, h])
+                    if 0 <= h < len(kinds) and kinds[h] == "t":
+                        kinds[h] = None; kinds.append("c"); home[len(kinds) - 1] = home[h]
+            elif choice == 22:     # typed boxes
+                if not live("b") or r.chance(1, 2):
+                    ops.append([27, m, r.below(1000)]); kinds.append("b"); home[len(kinds) - 1] = m
+                else:
+                    ops.append([28, m, pick("b")])
             else:
-                h = pick(r.choice(["c", "o", "g", "v"])); ops.append([17, m, h])
+                h = pick(r.choice(["c", "o", "g", "v", "t", "b"])); ops.append([17, m, h])
                 if 0 <= h < len(kinds) and kinds[h]:
                     kinds[h] = None
             o = ops[-1]
-            if len(o) > 2 and o[0] not in (0, 13, 2, 6) and 0 <= o[2] < len(kinds) and home.get(o[2], m) != m:
+            if len(o) > 2 and o[0] not in (0, 13, 2, 6, 24, 27) and 0 <= o[2] < len(kinds) and home.get(o[2], m) != m:
                 dist["cross_module_uses"] += 1
         dist["ops"] += len(ops)
         lines.append("5 0 | " + " ; ".join(" ".join(map(str, o)) for o in ops))
